@@ -21,7 +21,8 @@ NAMES = ["M1", "M2", "A", "B", "core", "alu0", "yes", "no", "on", "off", "null_"
          "true", "null", "e5", "_1", "T", "x_", "_", "False", "Module_with_a_long_name_0123456789", "fixed", "area", "Nets"]
 REGIONS = ["DSP", "LUT", "BRAM", "yes", "A", "n"]
 UNITS = ["1", "1", "0.5", "0.125", "2", "16", "0.1", "0.1", "0.01", "0.3", "0.7", "0.025", "2.5", "7", "1.1", "10"]
-WEIGHTS = [None, None, None, 1, 1.0, 2, 3, 10, 0.5, 2.5, 0.001, 1e-05, 7.25, 100]
+WEIGHTS = [None, None, None, 1, 1.0, 2, 3, 10, 0.5, 2.5, 0.001, 1e-05, 7.25, 100,
+           0.0123456789, 1234567.25, 0.30000000000000004, 0.3333333333333333, 123456789, 2.0000001]  # (weights that need more than 6 digits)
 AR_SCALAR = [0.5, 2, 1, 3.0, 0.25, 1.5, 1.0]
 AR_LO = [0, 0.25, 0.5, 1, 1.0, 0.0]
 AR_HI = [1, 1.0, 2, 4.5, 3]
